@@ -104,7 +104,7 @@ def search_traces(chk, tier):
     outcomes = {}
     for sc, run_ev in project.read_runs(raw):
         pe = project.project_search(sc, run_ev)
-        if pe:
+        if len(pe) > 1:
             runs.append((sc, pe))
             k = sum(1 for x in pe if x["e"] == "start")
             searches += k
